@@ -138,9 +138,14 @@ def run(ctx):
         exact(ctx, prog)
         array_chunks(ctx, prog)
         iso_and_ctors(ctx, prog)
+        # array_chunks is `as_chunks(slice)` (CTOR rule): what as_chunks returns is C02's table, decided here too so that a slip in
+        # it is reported by the property whose iterator is built on it
+        from . import c02
+        c02.run_chunks(ctx, prog)
     ctx.floor("TAB-STEP", 16)
     ctx.floor("ISO", 16)
     ctx.floor("CTOR", 18)
+    ctx.floor("TAB-CHUNKS", 2)
 
 
 def state_fields(exp):
